@@ -398,3 +398,84 @@ def dictdoc_kinds(sx, p):
         return isinstance(got, list) and all(x is None or isinstance(x, Base) for x in got)
     adm = dict(ADMISSIBLE, other=(Other,))
     return _admissible(got, adm[slot])
+
+
+# ---------------------------------------------------------------- xsi:type on primitive and array elements
+from spyne.model.primitive import DateTime
+
+class InnerRec(ComplexModel):
+    __namespace__ = 'tns'
+    v = Integer
+
+
+class LeafHolder(ComplexModel):
+    __namespace__ = 'tns'
+    dec = Decimal
+    dt = DateTime
+    n = Integer
+    ints = Array(Integer)
+    recs = Array(InnerRec)
+    day = Date
+
+
+class _LSvc(Service):
+    @rpc(LeafHolder, _returns=Integer)
+    def lf(ctx, h):
+        return 1
+
+
+LAPP = Application([_LSvc], 'tns', in_protocol=XmlDocument(validator='soft'), out_protocol=XmlDocument())
+LCTX = fake_ctx(LAPP)
+LPROTS = {'XmlDocument soft': XmlDocument(app=LAPP, validator='soft'), 'XmlDocument': XmlDocument(app=LAPP),
+          'Soap11 lxml': Soap11(app=LAPP, validator='lxml')}
+# (xs:integer is derived from xs:decimal, in XML Schema and in spyne's model: an int is a value of a Decimal member)
+LEAF_SLOTS = {'dec': ('5', lambda v: isinstance(v, (decimal.Decimal, int)) and not isinstance(v, bool)), 'n': ('5', lambda v: isinstance(v, int) and not isinstance(v, bool)),
+              'dt': ('2001-02-03T04:05:06', lambda v: isinstance(v, datetime.datetime)),
+              'day': ('2001-02-03', lambda v: isinstance(v, datetime.date) and not isinstance(v, datetime.datetime)),
+              'ints': (None, lambda v: isinstance(v, list) and all(isinstance(x, int) for x in v)),
+              'recs': (None, lambda v: isinstance(v, list) and all(isinstance(x, InnerRec) for x in v))}
+
+
+def _leaf_type_names():
+    out = []
+    for key in LAPP.interface.classes:
+        if key.startswith('{') and '}' in key:
+            ns, name = key[1:].split('}', 1)
+            pfx = {'tns': 'tns', XSD_NS: 'xs'}.get(ns)
+            if pfx:
+                out.append(pfx + ':' + name)
+    return sorted(out)
+
+
+LEAF_TYPE_NAMES = _leaf_type_names()
+
+
+@harness('C04', params=[(pr, slot) for pr in sorted(LPROTS) for slot in sorted(LEAF_SLOTS)], label=lambda p: '%s slot=%s' % p,
+         functions=['spyne.protocol.xml.XmlDocument.from_element'],
+         bounds={'xsi:type': 'every type name registered in the interface (xs: builtins and tns: classes, arrays included) on a '
+                             'Decimal, Integer, DateTime, Date, Array(Integer) or Array(object) member; concrete conformant content'})
+def xsi_type_retag_leaves(sx, p):
+    """retagging a primitive or array member with any registered type never delivers a value of another native type (a float
+    for a Decimal, a date for a DateTime, objects for integers): it is refused or read as the declared type"""
+    pr, slot = p
+    prot = LPROTS[pr]
+    xt = sx.choose('xsi_type', LEAF_TYPE_NAMES)
+    text, admissible = LEAF_SLOTS[slot]
+    ns = {'tns': 'tns', None: 'tns', 'xs': XSD_NS}
+    if slot == 'ints':
+        kids = [mk_element(sx, '{tns}integer', text='1', nsmap=ns)]
+    elif slot == 'recs':
+        kids = [mk_element(sx, '{tns}InnerRec', children=[mk_element(sx, '{tns}v', text='1', nsmap=ns)], nsmap=ns)]
+    else:
+        kids = []
+    member = mk_element(sx, '{tns}' + slot, text=text, attrib={XSI_TYPE: xt}, children=kids, nsmap=ns)
+    try:
+        out = run_soft(lambda: prot.from_element(LCTX, LeafHolder, mk_element(sx, '{tns}h', children=[member], nsmap=ns)))
+    except Exception as e:
+        sx.outside('non-fault exception %s escapes (counted under C10)' % type(e).__name__)
+    sx.observe('accepted', out.accepted)
+    if not out.accepted:
+        return is_client_validation_fault(out.fault)
+    got = getattr(out.value, slot)
+    sx.observe('delivered', type(got).__name__)
+    return got is None or admissible(got)
